@@ -328,7 +328,29 @@ def run_case(c):
         return guarded(lambda: index_range_analysis_wrapper(e), sy)
     if k == "user":
         return run_user(c)
+    if k == "fold":
+        return run_fold(c)
     raise ValueError(k)
+
+
+def run_fold(c):
+    """resize_dim(p, alloc x, 0, size, 0, fold=True) on a real @proc: "accepted" or (err Class)"""
+    import importlib.util
+    import os
+    import tempfile
+    d = tempfile.mkdtemp(prefix="c13fold")
+    path = os.path.join(d, "c13_fold_case.py")
+    with open(path, "w") as f:
+        f.write(c["src"])
+    spec = importlib.util.spec_from_file_location("c13_fold_case", path)
+    mod = importlib.util.module_from_spec(spec)
+    spec.loader.exec_module(mod)
+    from exo.stdlib.scheduling import resize_dim
+    try:
+        resize_dim(mod.p, mod.p.find("x: _"), 0, c["size"], 0, fold=True)
+        return "accepted"
+    except Exception as e:  # noqa: BLE001
+        return "(err %s)" % type(e).__name__
 
 
 def _stride(r, s):
